@@ -21,7 +21,26 @@ class Op:
 OPS = {}
 
 
+def _timed(fn, seconds=60):
+    """an operation of the implementation that does not return is reported (TimeoutError), not waited for"""
+    import signal, functools
+
+    @functools.wraps(fn)
+    def wrapper(*a, **k):
+        def handler(signum, frame):
+            raise TimeoutError('operation did not return within %d s' % seconds)
+        old = signal.signal(signal.SIGALRM, handler)
+        signal.alarm(seconds)
+        try:
+            return fn(*a, **k)
+        finally:
+            signal.alarm(0)
+            signal.signal(signal.SIGALRM, old)
+    return wrapper
+
+
 def reg(op):
+    op.run = _timed(op.run)
     OPS[op.name] = op
 
 
@@ -99,6 +118,10 @@ def _run_arith(opname):
 
 for _o in ('add', 'sub', 'mul', 'div'):
     reg(Op('arith:' + _o, _gen_arith(_o), _run_arith(_o), 'arithmetic'))
+
+
+def ops_for(pid):
+    return {n: o for n, o in OPS.items() if getattr(o, 'only', None) is None or pid in o.only}
 
 
 def families():
@@ -229,3 +252,36 @@ for _o in ('iadd', 'isub', 'imul', 'idiv'):
     _op = Op('inplace:' + _o, _gen_inplace(_o), _run_inplace(_o), 'arithmetic')
     _op.ref0 = _ref0_inplace(_o)
     reg(_op)
+
+
+# ---------------------------------------------------------------- x // y (L'Hospital division for removable singularities; scalar-shaped polynomials)
+def _gen_floordiv(rng, Dmax=6, Pmax=3):
+    D = rng.randint(3, max(3, min(Dmax, 5))); P = rng.randint(1, Pmax)
+    x = _rand_utpm(rng, D, P, ())
+    y = _rand_utpm(rng, D, P, (), base_nz=True)
+    for p in range(P):
+        if rng.random() < 0.6:
+            # removable singularity in this direction: both leading coefficients vanish, the next ones do not
+            x[0, p] = 0.0; y[0, p] = 0.0
+            if y[1, p] == 0:
+                y[1, p] = 1.5
+    return dict(op='arith:floordiv', inputs=[x.tolist(), y.tolist()])
+
+
+def _run_floordiv(algopy, case, inputs):
+    x = algopy.UTPM(_as(inputs[0])); y = algopy.UTPM(_as(inputs[1]))
+    return [numpy.asarray((x // y).data)]
+
+
+def _ref0_floordiv(case, ins0):
+    # NumPy has no counterpart for the removable-singularity case: zeroth coefficient is x0/y0 only where y0 != 0
+    with numpy.errstate(all='ignore'):
+        return [numpy.where(ins0[1] != 0, ins0[0] / numpy.where(ins0[1] != 0, ins0[1], 1.0), numpy.nan)]
+
+
+_op = Op('arith:floordiv', _gen_floordiv, _run_floordiv, 'arithmetic-lhospital')
+_op.ref0 = _ref0_floordiv
+# truncating the inputs can turn the removable singularity into 0/0 (the kernel then loops for ever) and NumPy has no
+# counterpart for the zeroth coefficient: used for C11 (directions) and C14 (operands unchanged) only
+_op.only = ('C11', 'C14')
+reg(_op)
